@@ -313,6 +313,9 @@ func (client *client) writeLoop() {
 			err = errors.New(fmt.Sprint(re))
 		}
 		client.setError(err)
+		// Nothing is written any more: close the connection, so that the read loop (which may sit in a
+		// read the peer never ends) and with it the whole client come to an end.
+		_ = client.rwc.Close()
 	}()
 	for {
 		select {
